@@ -232,34 +232,65 @@ func runChild(run *vh.Run, j job, start int) (next int, finished bool) {
 	var waitErr error
 	hung := false
 	var hangInfo map[string]any
-	select {
-	case waitErr = <-done:
-	case <-time.After(j.Watchdog):
-		// watchdog: is the child stuck on ONE input? two observations of (input index, CPU time)
-		i1, e1, c1, _, ok1 := readCur(cur)
-		cpu1 := procCPU(cmd.Process.Pid)
+	// Progress monitor. The child writes the input it is about to offer into the cur file. A child
+	// that stays on ONE input for stall wall seconds AND (burned at least stall/2 CPU seconds on it
+	// [spinning] or practically none [blocked]) hangs on that input. The overall watchdog alone only
+	// ever yields "inconclusive".
+	stall := 75 * time.Second
+	if j.Probe {
+		stall = 20 * time.Second
+	}
+	if v, err := strconv.Atoi(os.Getenv("VERIF_C20_STALL_S")); err == nil && v > 0 {
+		stall = time.Duration(v) * time.Second
+	}
+	ticksPerSec := int64(100)
+	deadline := time.Now().Add(j.Watchdog)
+	lastIdx, lastOK := -1, false
+	lastChange := time.Now()
+	cpuAtChange := procCPU(cmd.Process.Pid)
+	tick := time.NewTicker(2 * time.Second)
+	defer tick.Stop()
+	exited := false
+	for !exited && !hung {
 		select {
 		case waitErr = <-done:
-		case <-time.After(4 * time.Second):
-			i2, _, _, _, ok2 := readCur(cur)
-			cpu2 := procCPU(cmd.Process.Pid)
-			if ok1 && ok2 && i1 == i2 {
-				hung = true
-				hangInfo = map[string]any{"input_index_at_both_observations": i1, "entry": e1, "class": c1, "cpu_ticks_between_observations_4s": cpu2 - cpu1,
-					"spinning": cpu2-cpu1 >= 200, "watchdog_s": j.Watchdog.Seconds()}
+			exited = true
+		case <-tick.C:
+			i, e, c, _, ok := readCur(cur)
+			cpu := procCPU(cmd.Process.Pid)
+			if ok != lastOK || i != lastIdx {
+				lastIdx, lastOK, lastChange, cpuAtChange = i, ok, time.Now(), cpu
+			} else if ok && time.Since(lastChange) >= stall {
+				burned := (cpu - cpuAtChange) / ticksPerSec
+				spinning := burned >= int64(stall.Seconds())/2
+				blocked := burned <= 2
+				if spinning || blocked {
+					hung = true
+					hangInfo = map[string]any{"input_index": i, "entry": e, "class": c, "wall_seconds_on_this_input": int(time.Since(lastChange).Seconds()),
+						"cpu_seconds_on_this_input": burned, "spinning": spinning, "blocked": blocked, "stall_threshold_s": stall.Seconds()}
+				}
 			}
-			_ = cmd.Process.Signal(syscall.SIGQUIT) // goroutine dump into the output FILE
-			select {
-			case waitErr = <-done:
-			case <-time.After(20 * time.Second):
-				_ = cmd.Process.Kill()
-				waitErr = <-done
-			}
-			if !hung {
+			if !hung && time.Now().After(deadline) {
+				_ = cmd.Process.Signal(syscall.SIGQUIT)
+				select {
+				case waitErr = <-done:
+				case <-time.After(20 * time.Second):
+					_ = cmd.Process.Kill()
+					waitErr = <-done
+				}
 				run.Inconclusive(fmt.Sprintf("watchdog fired for child %s while it was still making progress", spec))
 				f.Close()
 				return j.Count, true
 			}
+		}
+	}
+	if hung {
+		_ = cmd.Process.Signal(syscall.SIGQUIT) // goroutine dump into the output FILE
+		select {
+		case waitErr = <-done:
+		case <-time.After(20 * time.Second):
+			_ = cmd.Process.Kill()
+			waitErr = <-done
 		}
 	}
 	f.Close()
@@ -361,6 +392,6 @@ func merge(run *vh.Run, j job, s *summary) {
 		run.Sample(smp)
 	}
 	for _, n := range s.Notes {
-		run.Distinct("child_notes", trunc(n, 160))
+		run.Distinct("child_notes", trunc(n, 2200))
 	}
 }
